@@ -537,6 +537,29 @@ func markMon(c *Cell, tag string) {
 	}
 }
 
+// raceAccessDeep: an access to an aggregate (a struct or array loaded or stored as a whole) is an
+// access to every one of its fields and elements; a later access to a single field must meet it.
+func (m *Machine) raceAccessDeep(th *Thread, c *Cell, write bool) {
+	if !m.raceOn || len(m.threads) == 1 || th == nil || c == nil {
+		return
+	}
+	m.raceAccess(th, c, write)
+	switch x := c.v.(type) {
+	case StructV:
+		for _, f := range x.f {
+			if f != nil && f.mon {
+				m.raceAccessDeep(th, f, write)
+			}
+		}
+	case ArrayV:
+		for _, e := range x.e {
+			if e != nil && e.mon {
+				m.raceAccessDeep(th, e, write)
+			}
+		}
+	}
+}
+
 func (m *Machine) raceAccess(th *Thread, c *Cell, write bool) {
 	if !m.raceOn || len(m.threads) == 1 || th == nil {
 		return
